@@ -136,6 +136,51 @@ Proof. exact uid_injective_lemma. Qed.
 Theorem uid_distinct : forall (r : rdd), wf r -> NoDup (map uid_of (local_iter (zip_with_unique_id r))).
 Proof. exact uid_distinct_lemma. Qed.
 
+(* ---- sequences: a partitionBy at the end of ANY pipeline (earlier partitionBy with the same or
+   another n / f, key-changing maps, flatMap, keyBy, mapValues, zipWithUniqueId, persist, faults ...)
+   lays out the elements the pipeline produced so far by f(key) mod n -- nothing of an earlier
+   layout survives. *)
+Theorem partitionBy_after_any_pipeline : forall (s : source) (ops : list op) (r : rdd) n (f : val -> Z),
+  0 < n -> run_pipeline s ops = Ok r -> pairs_ok (local_iter r) ->
+  exists ps, run_pipeline s (ops ++ [OPartitionBy n f]) = Ok (mk_rdd ps) /\
+    Z.of_nat (length ps) = n /\
+    (forall j, 0 <= j < n -> nth_error ps (Z.to_nat j) = Some (filter (sel f n j) (local_iter r))) /\
+    (forall j p kv k, nth_error ps j = Some p -> In kv p -> key_of kv = Ok k -> Z.of_nat j = f k mod n).
+Proof. exact partitionBy_after_pipeline_lemma. Qed.
+
+(* ---- transient task faults (context._run_task with max_retries = 3): when every task fails on
+   fewer than max_retries attempts, the job yields for every partition what the lineage computes
+   from (index, contents) -- the fault-free layout -- and every attempt of the task of partition i
+   was handed index i.  With f = zip_uid_part this is zipWithUniqueId, with tag_index it is
+   mapPartitionsWithIndex. *)
+Theorem retried_job_layout : forall (plans : Z -> list bool) (f : Z -> list val -> list val) (r : rdd),
+  transient_plans plans r ->
+  run_job plans f r =
+    (Ok (glom (map_partitions_with_index f r)),
+     flat_map (fun ip => repeat (fst ip) (S (fails_before (plans (fst ip))))) r).
+Proof. exact run_job_transient. Qed.
+
+Theorem retried_task_sees_its_index : forall attempts plan f (ip : Z * list val) i,
+  In i (snd (run_task attempts plan f ip)) -> i = fst ip.
+Proof. exact run_task_indices. Qed.
+
+Theorem retries_exhausted : forall attempts plan f (ip : Z * list val),
+  (0 < attempts <= fails_before plan)%nat ->
+  run_task attempts plan f ip = (Err "RuntimeError", repeat (fst ip) attempts).
+Proof. exact run_task_gives_up. Qed.
+
+Theorem uid_under_retries : forall plans (r : rdd), transient_plans plans r ->
+  fst (run_job plans (zip_uid_part (num_partitions r)) r) = Ok (glom (zip_with_unique_id r)).
+Proof. exact uid_under_retries_lemma. Qed.
+
+(* ---- zipWithIndex: one partition; element k of the flattened input is paired with k *)
+Theorem zipWithIndex_form : forall (r : rdd),
+  num_partitions (zip_with_index r) = 1 /\
+  length (local_iter (zip_with_index r)) = length (local_iter r) /\
+  forall k x, nth_error (local_iter r) k = Some x ->
+              nth_error (local_iter (zip_with_index r)) k = Some (VTup [x; VInt (Z.of_nat k)]).
+Proof. exact zip_with_index_lemma. Qed.
+
 (* ---- error branches of the model (targets <= 0, zero partitions, elements that are not pairs) *)
 Theorem coalesce_zero : forall (r : rdd) m, Z.min m (num_partitions r) = 0 -> coalesce r m = Err "ZeroDivisionError".
 Proof. exact coalesce_zero_lemma. Qed.
@@ -206,3 +251,21 @@ Example portable_hash_doctest :
   portableb (VTup [VNone; VInt 1; VStr [97]%N; VTup [VFloat 1.5%float]]) = true /\
   portable_hash (fun _ => 1) (VErr "bytes") <> portable_hash (fun _ => 2) (VErr "bytes").
 Proof. vm_compute. repeat split. discriminate. Qed.
+
+Example retry_example :
+  run_task max_retries [true] tag_index (1, [VInt 7]) = (Ok [VTup [VInt 1; VInt 7]], [1; 1]) /\
+  run_task max_retries [true; true; true] tag_index (1, [VInt 7]) = (Err "RuntimeError", [1; 1; 1]) /\
+  transient_plans (fun i => if i =? 1 then [true] else []) (mk_rdd [[VInt 5]; [VInt 7]]).
+Proof.
+  split; [reflexivity|split; [reflexivity|]].
+  intros i p _. destruct (i =? 1); cbn; unfold max_retries; auto with arith.
+Qed.
+
+Example repartition_by_swapped_key :
+  let kv := map (fun ab => VTup [VInt (fst ab); VInt (snd ab)]) [(0,1); (1,0); (2,3); (3,2)] in
+  let idf := fun k => match k with VInt z => z | _ => 0 end in
+  let swap := fun v => match v with VTup [a; b] => VTup [b; a] | _ => VNone end in
+  (match run_pipeline (SPar kv (Some 2)) [OPartitionBy 2 idf; OMap swap; OPartitionBy 2 idf] with
+   | Ok r => glom r | Err _ => [] end)
+  = [[VTup [VInt 0; VInt 1]; VTup [VInt 2; VInt 3]]; [VTup [VInt 1; VInt 0]; VTup [VInt 3; VInt 2]]].
+Proof. vm_compute. reflexivity. Qed.
